@@ -1,6 +1,6 @@
 """C14 -- imports bind the same objects to the same names."""
 import json, os, sys
-from common import Check, fresh_oneliner
+from common import Check, fresh_oneliner, StepLimit
 import gen_prog, lower_common
 
 VEND = os.path.join(os.path.dirname(os.path.abspath(__file__)), "vend")
@@ -32,10 +32,11 @@ def run(code, mode, pkg):
         g['__name__'] = pkg + '.client'
         # the enclosing packages of a relative import must be importable: they are, and importing them is part of both runs
     try:
-        if mode == 'exec':
-            exec(compile(code, '<s>', 'exec'), g)
-        else:
-            eval(compile(code, '<o>', 'eval'), g)
+        with StepLimit():
+            if mode == 'exec':
+                exec(compile(code, '<s>', 'exec'), g)
+            else:
+                eval(compile(code, '<o>', 'eval'), g)
     except BaseException as e:
         out.append('EXC ' + type(e).__name__ + ' ' + str(e)[:60])
     names = {}
